@@ -438,7 +438,7 @@ func runCase(c Case, x reporter) {
 	qA := make([][]qres, n)
 	rcptBytes := make([][][]byte, n) // stored receipts of the valid non-KV txs of block i, in order
 	kvBytes := make([][][]byte, n)   // rlp(KV) of the valid KV txs of block i, in order
-	totalValid, totalLogs, failedStatus, modelMismatch, kvBlocks, rcptBlocks := 0, 0, 0, 0, 0, 0
+	totalValid, totalLogs, failedStatus, modelMismatch, kvBlocks, rcptBlocks, sigFailures := 0, 0, 0, 0, 0, 0, 0
 	{
 		A := &replica{name: "A", dir: filepath.Join(base, "a"), core: &fakeCore{params: params}}
 		evm.VerifSetValidateRoutineCount(c.WorkersA)
@@ -465,6 +465,11 @@ func runCase(c Case, x reporter) {
 			if len(o.valid)+len(o.invalid) != len(txs[i]) {
 				if x.Fail("tx-neither-valid-nor-invalid", "height %d: %d txs but %s", i+1, len(txs[i]), describeClass(txs[i], o)) {
 					return
+				}
+			}
+			for _, e := range o.invalidErr {
+				if strings.Contains(e, "invalid transaction v, r, s values") || strings.Contains(e, "recovery failed") || strings.Contains(e, "invalid signature recovery id") {
+					sigFailures++
 				}
 			}
 			qsAt[i] = buildQueries(i+1, txs, m, contractsUpTo)
@@ -668,7 +673,12 @@ func runCase(c Case, x reporter) {
 			ntx++
 		}
 	}
+	kl := make([]string, 0, len(kinds))
 	for k := range kinds {
+		kl = append(kl, k)
+	}
+	sortStrings(kl)
+	for _, k := range kl {
 		x.Label("kind:" + k)
 	}
 	if emptyBlocks > 0 {
@@ -690,6 +700,9 @@ func runCase(c Case, x reporter) {
 	}
 	if contractsUpTo[n-1] > 0 {
 		x.Label("contract-queries>0")
+	}
+	if sigFailures > 0 {
+		x.Label("sig-failures>0")
 	}
 	if modelMismatch > 0 {
 		x.Label("steering-model-mismatch")
